@@ -58,7 +58,13 @@ func c12Patches() []c12Patch {
 	chStmt := "# DESCTOKEN-S\n@@\nvar v identifier\n@@\n-v := f1(1)\n+v, err := g1(1)\n ...\n"
 	chDecl := "# DESCTOKEN-D\n@@\nvar n identifier\n@@\n-func n() int {\n+func n() (int, error) {\n ...\n }\n"
 	chChain := "# DESCTOKEN-C\n@@\nvar x expression\n@@\n-g1(x)\n+h1(x)\n"
+	// '#' lines inside a change (metavariable section, body) are comments, never descriptions of this or the next change
+	chAinner := "# DESCTOKEN-A first\n@@\n# inner comment in the metavariable section\nvar x expression\n@@\n# inner comment in the body\n-f1(x)\n+g1(x)\n# trailing comment of the body\n\n"
 	return []c12Patch{
+		{"Ainner+B", []string{chAinner + chB}},
+		{"Ainner+Bdesc", []string{chAinner + chBdesc}},
+		{"two-files:Ainner,B", []string{chAinner, chB}},
+		{"B+Ainner+B", []string{chB + "\n" + chAinner + strings.Replace(chB, "@ b @", "@ b2 @", 1)}},
 		{"A", []string{chA}},
 		{"B-nodesc", []string{chB}},
 		{"A+B", []string{chA + "\n" + chB}},
